@@ -21,7 +21,7 @@ var propC05 = &pProp{
 		if tier == "thorough" {
 			return pParams{batches: 8, grammars: 500, inputs: 10, optSets: 3, extra: 6}
 		}
-		return pParams{grammars: 128, inputs: 6, optSets: 2, extra: 3}
+		return pParams{grammars: 320, inputs: 6, optSets: 2, extra: 3}
 	},
 	accept: func(gp *genParser) bool { return gp.G.HasKind(gen.State) },
 	mkReqs: func(r *rng, gp *genParser, p pParams) []*parsersim.Request {
